@@ -31,10 +31,28 @@ def gen_interfere(r, tier):
             toks += [f"minp={lo}", f"maxp={hi}", f"startp={lo}", "avg=x408f400000000000", f"mode={r.pick([1,2])}"]
         else:
             toks += ["rint=900"]
-        ops.append("#case interfere")
+        # "at any time": also after a phase in which the control-mode attribute was absent and / or the PWM register
+        # unreadable when fan2go first looked (driver re-probing after resume); the attributes then appear and the
+        # property's device contract holds from there on (seed C05d: feature probes cached for ever)
+        outage = []
+        if kind == "hwmon" and r.chance(0.3):
+            if r.chance(0.6):
+                outage.append(("hasmode=0", "hasmode=1"))
+            if r.chance(0.6) or not outage:
+                outage.append((f"pwmread={r.pick(['perm', 'other:-1', 'other:0'])}", "pwmread=ok"))
+        ops.append("#case interfere" + (" outage=1" if outage else ""))
         ops.append("w.new " + " ".join(toks))
         now = r.range(1, 10**12)
         curve = r.range(0, 255)
+        if outage:
+            ops.append("w.dev " + " ".join(o[0] for o in outage))
+            for _ in range(r.range(0, 3)):
+                now += 200_000_000
+                ops.append(f"w.cycle curve={curve} now={now}")
+                if r.chance(0.5):
+                    ops.append("w.poll")
+            ops.append("w.dev " + " ".join(o[1] for o in outage))
+            ops.append("#healed")
         ncyc = r.range(2, 30 if kind != "cmd" else 12)   # cmd fans: every cycle is a few real process executions
         at = r.range(0, ncyc - 1)
         for c in range(ncyc):
@@ -75,8 +93,20 @@ class C05(Prop):
             keys = distinct_keys(m)
             hwmon = a.get("kind") == "hwmon"
             left = None  # the register value fan2go's last cycle left behind
+            healed_at = next((k for k, o in enumerate(cops) if o.startswith("#healed")), -1)
+            hasmode = a.get("hasmode", "1") == "1"
             for i, op, pre, post in ctrl.walk(cops, cgo):
+                if op.startswith("w.dev") and "hasmode" in kv(op):
+                    hasmode = kv(op)["hasmode"] == "1"
                 if not op.startswith("w.cycle"):
+                    continue
+                if i < healed_at:
+                    # outage phase (outside the device contract): nothing is judged; a cycle that got as far as writing
+                    # leaves its value behind
+                    if post.get("res") == "ok":
+                        left = int(post["pwm"])
+                    else:
+                        left = None
                     continue
                 if post.get("res") != "ok":
                     break
@@ -85,7 +115,7 @@ class C05(Prop):
                 if int(post["pwm"]) not in cands:
                     out.append(viol(f"after the cycle the PWM register shows {post['pwm']}, the target {t} dictates {sorted(cands)}", cops, cgo, upto=i))
                     break
-                if hwmon and a.get("hasmode", "1") == "1" and int(post["mode"]) != 1:
+                if hwmon and hasmode and int(post["mode"]) != 1:
                     out.append(viol(f"after the cycle the fan is in mode {post['mode']}, not manual", cops, cgo, upto=i))
                     break
                 dcnt = int(post["cnt"]) - int(pre["cnt"])
